@@ -31,6 +31,31 @@ func execKDE(a []Tok) string {
 		k.Kernel = stats.DeltaKernel
 	}
 	qs := a[6].Fs()
+	if (len(k.Sample.Xs)+len(qs))%2 == 0 {
+		// every other case: the KDE value has a past. It was used on another sample of the same
+		// size (and, if weighted, on the same weight slice holding other values), then its
+		// exported fields were set to this case's.
+		real := k.Sample
+		other := make([]float64, len(real.Xs))
+		for i, x := range real.Xs {
+			other[len(other)-1-i] = -2*x - 3
+		}
+		k.Sample = stats.Sample{Xs: other, Weights: real.Weights}
+		rev := func(w []float64) {
+			for i, j := 0, len(w)-1; i < j; i, j = i+1, j-1 {
+				w[i], w[j] = w[j], w[i]
+			}
+		}
+		rev(real.Weights)
+		k.Bounds()
+		if len(qs) > 0 {
+			k.PDF(qs[0])
+			k.CDF(qs[len(qs)-1])
+		}
+		rev(real.Weights)
+		k.Sample = real
+		k.Bandwidth = a[3].F()
+	}
 	pdf := make([]float64, len(qs))
 	cdf := make([]float64, len(qs))
 	for i, x := range qs {
